@@ -223,6 +223,7 @@ PROPS["C08"] = {
     "assumptions": ["handlers are invoked in-process (fasthttp.RequestCtx.Init, fake grpc.ServerStream); the network stack and the generated gRPC glue are not exercised"],
     "units": [
         {"name": "requests", "pkg": ".", "run": "TestVfC08", "checks": T(20000, 1000000), "shards": T(8, 16), "timeout": T(900, 3000), "transforms": GSFA_FASTPOLL, "env": ROOT_ENV, "crash_is_violation": True, "shrinktime": "20s"},
+        {"name": "fuzz", "pkg": ".", "run": "FuzzVfC08Body", "kind": "fuzz", "tiers": ("thorough",), "fuzztime": T("30s", "300s"), "workers": 16, "shards": 1, "checks": 0, "timeout": T(600, 1800), "transforms": GSFA_FASTPOLL, "env": {"GOGC": "100"}},
     ],
 }
 
@@ -262,6 +263,7 @@ PROPS["C12"] = {
     "assumptions": ["valid seeds come from one generated epoch built at process start"],
     "units": [
         {"name": "mutation", "pkg": ".", "run": "TestVfC12", "checks": T(24000, 1200000), "shards": T(8, 16), "timeout": T(900, 3000), "transforms": GSFA_FASTPOLL, "env": {"GOGC": "100"}, "shrinktime": "15s"},
+        {"name": "fuzz", "pkg": ".", "run": "FuzzVfC12", "kind": "fuzz", "tiers": ("thorough",), "fuzztime": T("30s", "300s"), "workers": 16, "shards": 1, "checks": 0, "timeout": T(600, 1800), "transforms": GSFA_FASTPOLL, "env": {"GOGC": "100"}},
     ],
 }
 
